@@ -57,12 +57,12 @@ theorem apply_comm (db : Db) (a b : Op) (da dbt : Nat) (h : a.key ≠ b.key) :
   cases ha : read db a da with
   | none =>
     cases hb : read db b dbt with
-    | none => simp [ha, hb]
+    | none => simp [ha]
     | some q =>
       have hq := read_key hb
       have : read (commit db (validate q)) a da = read db a da :=
         read_after_commit_other (p := validate q) (by simp only [validate]; rw [hq]; exact h)
-      simp [hb, this, ha]
+      simp [this, ha]
   | some p =>
     have hp := read_key ha
     have hb1 : read (commit db (validate p)) b dbt = read db b dbt :=
